@@ -198,7 +198,7 @@ def logit_leaf(rng, kind):
     # the key column takes a value that is not an alternative (the rows are set accordingly)
     bad = N(['LogLogit', keys, list(keys)], [N(['Var', 'kbad'])] + utils + avs)
     good = N(['LogLogit', keys, list(keys)], [N(['Var', 'kgood'])] + utils + avs)
-    return bad, good, 'kbad', ('column', keys)
+    return bad, good, '77', ('column', keys)
 
 
 def build_chain(rng, kind, target):
@@ -365,8 +365,9 @@ def ascii_ok(s):
 # =========================================================================================== stream: faults + methods
 def expected_code(c):
     k = c['kind']
-    return {'missing-column': 'M:zz', 'draws-outside': 'D:dflt', 'rv-outside': 'R:omflt', 'duplicate-beta-column': 'dup',
-            'duplicate-free-fixed': 'dup', 'var-outside-trajectory': 'V:x2', 'logit-keys': 'logit-keys',
+    m = c['mention']
+    return {'missing-column': 'M:' + m, 'draws-outside': 'D:' + m, 'rv-outside': 'R:' + m, 'duplicate-beta-column': 'dup',
+            'duplicate-free-fixed': 'dup', 'var-outside-trajectory': 'V:' + m, 'logit-keys': 'logit-keys',
             'logit-choice': None}[k]
 
 
@@ -505,8 +506,9 @@ def prep_methods(ctx, sm, c, which, r, coq_items, coq_meta):
         checks.append(f'seqb (ssort (map code (audit G {db} {t}))) {coq_strs(codes)}')
     else:
         ex = r.get('audit_exc', {})
-        # the audit raised: the only modelled raise is the availability check of a logit whose keys agree
-        checks.append(f'has "logit-raised" (audit G {db} {t})')
+        # the audit raised (it evaluates the choice and the availabilities of a logit on the data): the specification must be
+        # faulty according to the model, and the exception must be the library's
+        checks.append(f'nonempty (eval_errors G {db} {t} true true true)')
         if not ex.get('biogeme'):
             checks.append('false')
     for meth, fn in (('check_draws', 'check_draws'), ('check_rv', 'check_rv'), ('check_panel_trajectory', 'check_panel')):
@@ -577,13 +579,13 @@ def stream_other(ctx):
     rng = ctx.sub_rng('other')
     items, meta = [], []
     # ---- requests
-    for _ in range(ctx.n(6, 120)):
+    for _ in range(ctx.n(10, 120)):
         base = gen_case(rng, variables=True, max_depth=rng.choice([2, 3]), n_rows=3, exclude=['NormalCdf'])
         for e in ('hess', 'bhhh', 'hess_bhhh', 'gvd'):
             items.append({'mode': 'formula', 'tree': base['tree'], 'betas': base['betas'], 'rows': base['rows'], 'panel': False, 'entry': e})
             meta.append(('request', e, base))
     # ---- data
-    for rep in range(ctx.n(1, 12)):
+    for rep in range(ctx.n(3, 12)):
         for kind, cls in DATA_BAD + [(g, None) for g in DATA_GOOD]:
             ncols = rng.randint(1, 4)
             posn = rng.randrange(ncols + 1)
@@ -607,7 +609,7 @@ def stream_other(ctx):
                   'get_mev_for_nested_mu']
     cnl_fns = ['logcnl', 'cnl', 'logcnlmu', 'cnlmu', 'get_mev_for_cross_nested', 'get_mev_for_cross_nested_mu']
     rows = [{'x1': 0.5, 'av1': 1.0, 'kk': 1.0}, {'x1': 1.5, 'av1': 0.0, 'kk': 3.0}]
-    for rep in range(ctx.n(1, 10)):
+    for rep in range(ctx.n(3, 12)):
         for fn in nested_fns + cnl_fns:
             for fault in ('overlap', 'outside', None):
                 n_alt = rng.randint(3, 6)
@@ -849,10 +851,25 @@ def stream_missing(ctx):
         vcases.append({'expr': plain(it['tree']), 'env': {'beta': benv, 'var': env_row}, 'observed': obs})
         vmeta.append((it, m, r, light))
     verdicts = check_values(ctx, 'c12miss', vcases, relbits=-30, strict_nan=True)
+    # is a model verdict "outside the domain" caused by the missing cells?  Re-evaluate the model with ordinary values in those
+    # cells: only observations that are regular then are judged (evalX differs between the two rows only where a missing cell is read)
+    again = [i for i, ((it, m, r, light), (v, info)) in enumerate(zip(vmeta, verdicts))
+             if (v == 'differ' and isinstance(info, dict) and info.get('model') == 'outside the domain (NaN)')
+             or (v == 'agree' and info == 'both outside the domain')]
+    bcases = []
+    for i in again:
+        it = vmeta[i][0]
+        full = {k: (0.75 if x == it['code'] else x) for k, x in it['row'].items()}
+        bcases.append({'expr': vcases[i]['expr'], 'env': {'beta': vcases[i]['env']['beta'], 'var': full}, 'observed': 0.0})
+    bverd = check_values(ctx, 'c12missb', bcases, relbits=-30, strict_nan=True) if bcases else []
+    irregular = set()
+    for i, (v, info) in zip(again, bverd):
+        if v == 'undecided' or (isinstance(info, dict) and info.get('model') == 'outside the domain (NaN)'):
+            irregular.add(i)
     und = 0
-    split = {'read-fails': 0, 'unread-harmless': 0, 'no-code': 0}
-    for (it, m, r, light), (v, info) in zip(vmeta, verdicts):
-        if v == 'undecided':
+    split = {'read-fails': 0, 'unread-harmless': 0, 'no-code': 0, 'irregular-dropped': len(irregular)}
+    for i, ((it, m, r, light), (v, info)) in enumerate(zip(vmeta, verdicts)):
+        if v == 'undecided' or i in irregular:
             und += 1
             st.evaluations += 1
             continue
@@ -860,13 +877,19 @@ def stream_missing(ctx):
         failed = 'value' not in r
         if v == 'differ':
             st.disagree(light, info, r)
+            cols = [k for k, x in it['row'].items() if x == it['code']]
+            cls = m['name']
+            if not failed and linutil_reads(it['tree'], cols):
+                cls = 'linear-utility'
             if failed:
                 what = ('the evaluation fails although the lazy semantics does not read any cell holding the missing-data code '
                         '(the code sits in an unread column / branch)') if m['planted'] else 'the evaluation of a regular observation fails'
-                ctx.violation(f'C12/missing/unread-not-harmless/{m["name"]}', what, light, info, r)
+                if ctx.violation(f'C12/missing/unread-not-harmless/{cls}', what, light, info, r) is False:
+                    st.disagreements.pop()
             else:
-                ctx.violation(f'C12/missing/read-not-refused/{m["name"]}', 'the formula reads a cell holding the missing-data code and a number '
-                              'is produced (or the value is wrong)', light, info, r)
+                if ctx.violation(f'C12/missing/read-not-refused/{cls}', 'the formula reads a cell holding the missing-data code and a number '
+                                 'is produced (or the value is wrong)', light, info, r) is False:
+                    st.disagreements.pop()
             continue
         if m['expect_fail'] is not None and m['expect_fail'] != failed:
             st.disagree(light, f'by construction the cell is {"read" if m["expect_fail"] else "not read"}', r)
@@ -888,6 +911,13 @@ def stream_missing(ctx):
         ctx.stream_broken('missing', f'coverage floor: {split}')
     if st.disagreements:
         ctx.stream_broken('missing', f'{len(st.disagreements)} disagreements; first: {json.dumps(st.disagreements[0], default=str)[:900]}')
+
+
+def linutil_reads(t, cols):
+    """a linear utility whose variable holds the missing-data code"""
+    if t['h'][0] == 'LinUtil':
+        return any(k['h'][0] == 'Var' and k['h'][1] in cols for k in t['k'])
+    return any(linutil_reads(k, cols) for k in t['k'])
 
 
 # =========================================================================================== corpus / run / replay
